@@ -915,10 +915,11 @@ Proof.
   - (* Pause *)
     assert (HI0 : Inv nl None st0).
     { unfold Inv, st0. cbn. eapply InvC_pop_other; [|unfold Inv in HI; rewrite Hq in HI; exact HI]. discriminate. }
-    set (st1 := if paused st0 then st0 else deregister_all (set_paused st0 true)).
+    set (st1 := if paused st0 then st0 else emit (deregister_all (set_paused st0 true)) EvPauseOn).
     assert (HI1 : Inv nl None st1 /\ wq st1 = rest /\ Fr st st1).
-    { unfold st1. destruct (paused st0); [auto|]. split; [|split; [reflexivity|apply Fr_same; reflexivity]].
-      apply Inv_deregister_all. exact HI0. }
+    { unfold st1. destruct (paused st0); [auto|]. split; [|split; [reflexivity|]].
+      - apply (Inv_deregister_all nl None (set_paused st0 true)). exact HI0.
+      - split; [reflexivity|]. intros HT. unfold TInv. cbn [trace next emit]. apply TrI_emit_other; [exact I|exact HT]. }
     destruct HI1 as (HI1 & Hq1 & Fr1).
     destruct (IH st1 ys HI1 Hys) as (st' & ys' & Hs & HI' & Hys' & Fr'); [rewrite Hq1; cbn in Hfuel; lia|].
     rewrite Hs. exists st', ys'. repeat (split; [solve [auto]|]). eapply Fr_trans; eassumption.
@@ -926,10 +927,11 @@ Proof.
     assert (HI0 : Inv nl None st0).
     { unfold Inv, st0. cbn. eapply InvC_pop_other; [|unfold Inv in HI; rewrite Hq in HI; exact HI]. discriminate. }
     destruct (paused st0) eqn:Hpa.
-    + set (st1 := set_lsts (set_paused st0 false) (map register (lsts st0))).
+    + set (st1 := emit (set_lsts (set_paused st0 false) (map register (lsts st0))) EvPauseOff).
       assert (HI1 : Inv nl None st1).
       { unfold Inv, st1. cbn. eapply InvC_change_ls; [|exact HI0]. rewrite map_length. exact Hnl. }
-      assert (Fr1 : Fr st st1) by (apply Fr_same; reflexivity).
+      assert (Fr1 : Fr st st1).
+      { split; [reflexivity|]. intros HT. unfold TInv, st1. cbn [trace next emit]. apply TrI_emit_other; [exact I|exact HT]. }
       destruct (accept_all_inv nl st1 ys HI1 Hys) as (st2 & ys2 & Hs2 & HP2). rewrite Hs2.
       pose proof (Fr_of_Post _ _ _ _ _ HP2) as Fr2. destruct HP2 as (HI2 & Hys2 & Hm2 & _).
       destruct (IH st2 ys2 HI2 Hys2) as (st' & ys' & Hs & HI' & Hys' & Fr'); [unfold st1 in Hm2; cbn in Hm2, Hfuel; lia|].
